@@ -70,13 +70,25 @@ func (w *World) emit(sender *Node, to int, bcast bool, data []byte) {
 		} else {
 			pl := append([]byte(nil), b.truncVec...)
 			bad := curve.G2OffCurve(w.c.Sub("trunc.rnd"))
-			if w.c.Bool(1, 2, "trunc.badkind") {
+			pad := m.Data[1:97]
+			switch w.c.Choose(3, "trunc.badkind") {
+			case 1:
 				bad = append([]byte(nil), m.Data[1:97]...)
 				bad[0] &^= 0x80 // compression bit cleared
+			case 2:
+				// a non-canonical encoding of infinity (a non-zero byte in its body), the rest of the
+				// vector canonical infinities: whoever takes the bad entry for the identity sees exactly
+				// the lower-degree polynomial that all the shares lie on
+				bad = make([]byte, 96)
+				bad[0] = 0xC0
+				bad[1+w.c.Choose(95, "trunc.infbyte")] = byte(1 + w.c.Choose(255, "trunc.infval"))
+				inf := make([]byte, 96)
+				inf[0] = 0xC0
+				pad = inf
 			}
 			pl = append(pl, bad...)
 			for len(pl) < 96*(w.t+1) {
-				pl = append(pl, m.Data[1:97]...)
+				pl = append(pl, pad...)
 			}
 			m.Data = append([]byte{tagVec}, pl[:96*(w.t+1)]...)
 			m.Poly, m.Well, m.Shape, m.Label = "X", false, false, "byz:truncated-attack:vector"
